@@ -131,3 +131,164 @@ theorem Functor.loop_of_fold (F : Functor) {scan c : Ty} {res : Diagram} {ls : L
     simpa [foldT, Layer.cod] using this
 
 end DV
+
+namespace DV
+
+/-! ### Dagger of a fold -/
+
+/-- `M₁ ≫ (M₂ ≫ … (Mₖ ≫ z))`. -/
+def foldR (Ms : List Diagram) (z : Diagram) : Diagram := Ms.foldr Diagram.thenD z
+
+theorem foldT_append (res : Diagram) (Ls : List Diagram) (L : Diagram) :
+    foldT res (Ls ++ [L]) = (foldT res Ls).thenD L := by simp [foldT, List.foldl_append]
+
+theorem foldT_dagger (res : Diagram) (Ls : List Diagram) :
+    (foldT res Ls).dagger = foldR (Ls.reverse.map Diagram.dagger) res.dagger := by
+  induction Ls generalizing res with
+  | nil => simp [foldT, foldR]
+  | cons L Ls ih =>
+    have : foldT res (L :: Ls) = foldT (res.thenD L) Ls := rfl
+    rw [this, ih, thenD_dagger]
+    simp [foldR, List.foldr_append]
+
+/-- `foldT a Ms = a ≫ foldR Ms (last identity)` reassociated: a left fold is the right fold when the
+    seed is moved to the front. -/
+theorem foldT_eq_thenD_foldR (a z : Diagram) (Ms : List Diagram) :
+    (foldT a Ms).thenD z = a.thenD (foldR Ms z) := by
+  induction Ms generalizing a with
+  | nil => simp [foldT, foldR]
+  | cons M Ms ih =>
+    have : foldT a (M :: Ms) = foldT (a.thenD M) Ms := rfl
+    rw [this, ih, thenD_assoc]
+    simp [foldR]
+
+/-- Typing of the images along a chain of layers. -/
+theorem Functor.Imgs.chain {F : Functor} {ls : List Layer} {Ls : List Diagram} (h : F.Imgs ls Ls) :
+    ∀ L ∈ Ls, L.WF := by
+  induction h with
+  | nil => simp
+  | cons himg _ ih =>
+    intro L hL
+    rcases List.mem_cons.mp hL with rfl | hL
+    · exact himg.props.1
+    · exact ih L hL
+
+theorem Functor.Imgs.foldT_props {F : Functor} {scan c : Ty} {ls : List Layer} {Ls : List Diagram}
+    {res : Diagram} (hch : Chain scan ls c) (hres : res.WF) (hty : F.ty scan = .ok res.cod)
+    (h : F.Imgs ls Ls) :
+    (foldT res Ls).WF ∧ (foldT res Ls).dom = res.dom ∧ F.ty c = .ok (foldT res Ls).cod := by
+  induction h generalizing scan res with
+  | nil => simp [Chain] at hch; subst hch; exact ⟨hres, rfl, hty⟩
+  | @cons l ls L Ls himg _ ih =>
+    obtain ⟨hs, hc⟩ := hch
+    subst hs
+    obtain ⟨Lw, Ld, Lc⟩ := himg.props
+    have hcomp : res.cod = L.dom := by rw [hty] at Ld; exact Except.ok.inj Ld
+    have hw' : (res.thenD L).WF := Diagram.thenD_wf hres Lw hcomp
+    have := ih (scan := l.cod) (res := res.thenD L) hc hw' (by simpa [Diagram.thenD] using Lc)
+    exact this
+
+/-- Images of the daggered layers, in reverse order, are the daggers of the images. -/
+theorem Functor.Imgs.dagger {F : Functor} {ls : List Layer} {Ls : List Diagram} (h : F.Imgs ls Ls)
+    (hdag : ∀ l ∈ ls, ∀ x, F.box l.box = .ok x → F.box l.box.dag = .ok x.dagger) :
+    F.Imgs (ls.reverse.map Layer.dag) (Ls.reverse.map Diagram.dagger) := by
+  induction h with
+  | nil => exact .nil
+  | @cons l ls L Ls himg _ ih =>
+    have hrest := ih (fun l' hl' => hdag l' (List.mem_cons_of_mem _ hl'))
+    simp only [List.reverse_cons, List.map_append, List.map_cons, List.map_nil]
+    -- append one image at the end
+    have happ : ∀ {as : List Layer} {As : List Diagram}, F.Imgs as As → ∀ {b B}, F.Img b B →
+        F.Imgs (as ++ [b]) (As ++ [B]) := by
+      intro as As has
+      induction has with
+      | nil => intro b B hb; exact .cons hb .nil
+      | cons ha _ ih' => intro b B hb; exact .cons ha (ih' hb)
+    apply happ hrest
+    obtain ⟨lt, rt, x, h1, h2, hx, xw, xd, xc, rfl⟩ := himg
+    refine ⟨lt, rt, x.dagger, h1, h2, hdag l (List.mem_cons_self ..) x hx, Diagram.dagger_wf xw, ?_, ?_,
+      (layerD_dagger lt rt xw)⟩
+    · simp only [Layer.dag_box, Box.dag_dom]; rw [Diagram.dagger_dom xw]; exact xc
+    · simp only [Layer.dag_box, Box.dag_cod]; rw [Diagram.dagger_cod xw]; exact xd
+
+/-- C04: the image of the dagger is the dagger of the image, for every diagram whose boxes satisfy
+    the box-level dagger law `hdag` (generator boxes do, by `Functor.box_dagger`). -/
+theorem Functor.apply_dagger (F : Functor) {d fd : Diagram} (hd : d.WF)
+    (hok : ∀ b ∈ d.boxes, F.okOn b)
+    (hdag : ∀ b ∈ d.boxes, ∀ x, F.box b = .ok x → F.box b.dag = .ok x.dagger)
+    (hfd : F.apply d = .ok fd) : F.apply d.dagger = .ok fd.dagger := by
+  obtain ⟨fdw, fddom, fdcod⟩ := F.apply_props hd hok hfd
+  have hch : Chain d.dom d.layers.boxes d.cod := by
+    have := hd.chain; rwa [LArrow.WF, hd.ldom, hd.lcod] at this
+  unfold Functor.apply at hfd
+  rw [fddom] at hfd
+  simp only at hfd
+  rw [hd.boxes, hd.offsets] at hfd
+  obtain ⟨Ls, himgs, hfold⟩ := F.loop_fold hch (Diagram.id_wf fd.dom)
+    (fun l hl => hok l.box (by rw [hd.boxes]; exact List.mem_map_of_mem hl)) hfd
+  have himgs' := himgs.dagger
+    (fun l hl => hdag l.box (by rw [hd.boxes]; exact List.mem_map_of_mem hl))
+  -- the dagger diagram
+  have hdw := Diagram.dagger_wf hd
+  have hch' : Chain d.cod (d.layers.boxes.reverse.map Layer.dag) d.dom := chain_dag hch
+  have hloop := F.loop_of_fold (res := Diagram.id fd.cod) hch' (Diagram.id_wf fd.cod)
+    (by simpa [Diagram.id] using fdcod) himgs'
+  unfold Functor.apply
+  have hdom' : d.dagger.dom = d.cod := hd.lcod
+  rw [hdom', fdcod]
+  simp only
+  have hb : d.dagger.boxes = (d.layers.boxes.reverse.map Layer.dag).map (·.box) := by
+    simp [Diagram.dagger, Diagram.ofLayers, LArrow.dag]
+  have ho : d.dagger.offsets = (d.layers.boxes.reverse.map Layer.dag).map
+      (fun l => (l.left.length : Int)) := by
+    simp [Diagram.dagger, Diagram.ofLayers, LArrow.dag]
+  rw [hb, ho, hloop]
+  congr 1
+  -- foldT (id fd.cod) (Ls†) = fd†
+  have hprops := himgs'.foldT_props hch' (Diagram.id_wf fd.cod)
+    (by simpa [Diagram.id] using fdcod)
+  obtain ⟨w, hdm, hcd⟩ := hprops
+  have hcod_eq : (foldT (Diagram.id fd.cod) (Ls.reverse.map Diagram.dagger)).cod = fd.dom := by
+    rw [fddom] at hcd; exact (Except.ok.inj hcd).symm
+  have h1 := foldT_eq_thenD_foldR (Diagram.id fd.cod) (Diagram.id fd.dom)
+    (Ls.reverse.map Diagram.dagger)
+  rw [thenD_id w hcod_eq] at h1
+  have hR : foldR (Ls.reverse.map Diagram.dagger) (Diagram.id fd.dom) = fd.dagger := by
+    have e : fd.dagger = (foldT (Diagram.id fd.dom) Ls).dagger := congrArg Diagram.dagger hfold
+    rw [e, foldT_dagger, Diagram.dagger_id]
+  rw [h1, hR]
+  exact id_thenD (Diagram.dagger_wf fdw) (Diagram.dagger_dom fdw)
+
+end DV
+
+namespace DV
+
+/-- The box-level dagger law for a daggered generator box whose (undaggered) image is well-typed. -/
+theorem Functor.box_dagger_flagged (F : Functor) (b : Box) (hk : b.kind = .gen) (hd : b.dagger = true)
+    {y : Diagram} (hy : F.arLookup b.dag = .ok y) (hw : y.WF) {x : Diagram} (hx : F.box b = .ok x) :
+    F.box b.dag = .ok x.dagger := by
+  have hkd : b.dag.kind = .gen := by simp [Box.dag, hk]
+  have hdd : b.dag.dagger = false := by simp [Box.dag, hk, hd]
+  simp only [Functor.box, hk, hd, if_true, hy] at hx
+  cases hx
+  simp only [Functor.box, hkd, hdd, Bool.false_eq_true, if_false, hy]
+  rw [Diagram.dagger_dagger hw]
+
+/-! Finding F6 in the model: for `Swap(x, y)` with two-wire images the box-level dagger law fails. -/
+namespace F6
+def x : Ob := ⟨"x", 0⟩
+def y : Ob := ⟨"y", 0⟩
+def p : Ob := ⟨"p", 0⟩
+def q : Ob := ⟨"q", 0⟩
+def r : Ob := ⟨"r", 0⟩
+def s : Ob := ⟨"s", 0⟩
+def F : Functor := { ob := [("x", [p, q]), ("y", [r, s])], ar := [] }
+def sw : Box := Box.swap x y
+
+theorem swap_dagger_law_fails :
+    (match F.box sw, F.box sw.dag with
+     | .ok a, .ok b => a.dagger.eqv b
+     | _, _ => true) = false := by decide
+end F6
+
+end DV
